@@ -505,6 +505,11 @@ int fp12_test_cyc(const fp12_t a) {
 	fp12_t t0, t1;
 	int result = 0;
 
+	/* Zero satisfies 0^(p^4) * 0 = 0^(p^2) but is not a unit. */
+	if (fp12_is_zero(a)) {
+		return 0;
+	}
+
 	fp12_null(t0);
 	fp12_null(t1);
 
